@@ -14,7 +14,8 @@ let utf8_scalars (s : string) : int list =
   go 0 []
 let () = register "bparse" (function
   | [t] -> (match bs_parse (List.map n_of_int (utf8_scalars t)) with
-            | BsOk n -> "OK " ^ dec_of_n n | BsErrNumber -> "ERR number" | BsErrSuffix -> "ERR suffix")
+            | BsOk n -> "OK " ^ dec_of_n n | BsErrNumber -> "ERR number" | BsErrSuffix -> "ERR suffix"
+            | BsPanic -> "PANIC")
   | _ -> "BADARGS")
 let () = register "bdisp" (function
   | [n] -> (match bs_display (n_of_dec n) with Some t -> "OK " ^ hex_of_bytes t | None -> "PANIC")
